@@ -63,6 +63,28 @@ const (
 	dbName = "db"
 )
 
+// Restrictions that were needed while defects outside C04 were unrepaired. All of them were
+// found or hit by this check, are repaired in /repo by now, and are therefore switched off
+// (kept as switches so that a regression of one of those defects can be told from a rollup defect):
+//
+//   - spaceMemDBCreation: wait for a tick of lindb's coarse clock before a write that creates a
+//     memory database (two memory databases of a shard created within one 5 ms tick shared their key
+//     in the time series index, the one flushed second lost its rows; fixed by 035c997).
+//   - preRegisterNames: create metric name, tag key and fields through the meta database before
+//     the first row (meta worker and index worker raced in GenMetricID / genFieldID / genTagKeyID
+//     for a new metric; D2 of DESIGN.md, fixed by 7b804d6).
+//   - primeSeries: write one point of every (metric, series) in the first step (a metadata / index
+//     flush with nothing new wedged the dictionary stores, names created later were lost by a
+//     restart; fixed by 3940569).
+//   - monotoneSlots: never write an earlier slot of a series/field after a later one into the
+//     same memory database (the later slot was lost at flush; fixed by b1a5d12).
+const (
+	spaceMemDBCreation = false
+	preRegisterNames   = false
+	primeSeries        = false
+	monotoneSlots      = false
+)
+
 // ---- plan (the generated case) ---------------------------------------------------------------
 
 // source intervals: day type, divide 1h and divide every generated target (all divide 5 min).
@@ -218,7 +240,10 @@ func genPlan(t *rapid.T) *plan {
 	// steps
 	g := &stepGen{t: t, p: p, last: map[string]int{}, mem: map[int]bool{}, pend: map[int]bool{}}
 	nSteps := rapid.IntRange(3, 10).Draw(t, "nSteps")
-	first := g.prime()
+	first := step{Kind: "write"}
+	if primeSeries {
+		first = g.prime()
+	}
 	first.Points = append(first.Points, g.write().Points...)
 	p.Steps = append(p.Steps, g.commit(first))
 	crashUsed := false
@@ -371,7 +396,9 @@ func (g *stepGen) crashKind() string {
 // commit orders the points of a write step by time (so slots never go backwards inside the
 // step) and remembers the last slot per family/metric/series/field.
 func (g *stepGen) commit(s step) step {
-	sort.SliceStable(s.Points, func(i, j int) bool { return s.Points[i].TS < s.Points[j].TS })
+	if monotoneSlots {
+		sort.SliceStable(s.Points, func(i, j int) bool { return s.Points[i].TS < s.Points[j].TS })
+	}
 	for _, pt := range s.Points {
 		g.mem[pt.Fam] = true
 		slot := int((pt.TS - g.p.Families[pt.Fam].Time) / g.p.Source)
@@ -461,6 +488,11 @@ func (g *stepGen) write() step {
 			}
 		}
 		sort.Ints(slots)
+		if !monotoneSlots && rapid.IntRange(0, 3).Draw(t, "backwards") == 0 {
+			for i, j := 0, len(slots)-1; i < j; i, j = i+1, j-1 { // rows arrive out of order
+				slots[i], slots[j] = slots[j], slots[i]
+			}
+		}
 		metric := rapid.IntRange(0, len(p.Metrics)-1).Draw(t, "metric")
 		oneSeries := rapid.Bool().Draw(t, "oneSeries")
 		series := rapid.IntRange(0, p.NSeries-1).Draw(t, "series")
@@ -477,7 +509,7 @@ func (g *stepGen) write() step {
 					continue // field missing in this point
 				}
 				key := fmt.Sprintf("%d/%d/%d/%d", fam, metric, series, f)
-				if last, ok := g.last[key]; ok && slot < last {
+				if last, ok := g.last[key]; ok && slot < last && monotoneSlots {
 					continue // would go backwards relative to an earlier step of the same memory database
 				}
 				vals = append(vals, fv{F: f, K: rapid.IntRange(-64, 64).Draw(t, "k")})
@@ -692,7 +724,7 @@ func (e *env) write(pts []point) {
 	}
 	for _, fam := range order {
 		f := e.fams[fam]
-		createsMemDB := len(f.mem) == 0
+		createsMemDB := spaceMemDBCreation && len(f.mem) == 0
 		if createsMemDB {
 			tickGuard.wait()
 		}
@@ -719,7 +751,7 @@ func (e *env) write(pts []point) {
 // that happens depends on the scheduler, not on the seed, and it is C09's subject, so the
 // harness keeps it out of this check.
 func (e *env) registerMetrics() {
-	if os.Getenv("C04_NO_REGISTER") != "" {
+	if !preRegisterNames {
 		return
 	}
 	db, _ := e.n.Engine.GetDatabase(e.db)
@@ -768,13 +800,20 @@ func (e *env) memToFile(f *famState) {
 	f.mem = nil
 }
 
-// flush runs the production flush order: metadata, index, then the data families.
+// flush follows the production flush order: metadata, index, then the data families.
 func (e *env) flush(idx []int) {
 	db, ok := e.n.Engine.GetDatabase(e.db)
 	if !ok {
 		e.fatalf("database not found")
 	}
-	if err := db.FlushMeta(); err != nil {
+	// Metadata: PrepareFlush + Flush of the metric meta database on this goroutine. Database.FlushMeta
+	// does the same through the metadata worker and then runs metadataDatabase.gc in the
+	// background; that gc removes a metric store that a concurrent first write of the metric has
+	// just created (third side finding, proposed_fix_memdb_new_metric_store_gc.diff), which would
+	// make the next write step depend on the scheduler.
+	meta := db.MetaDB()
+	meta.PrepareFlush()
+	if err := meta.Flush(); err != nil {
 		e.fatalf("flush meta: %v", err)
 	}
 	if err := e.shard.FlushIndex(); err != nil {
